@@ -66,6 +66,16 @@ CHECKS = {
         text="Every byte string up to the bound over an alphabet with one representative per byte class is lexed by the real lexer; TLC evaluates Meaning on the resulting token stream and the real parse must succeed exactly when the meaning does, never panic or hang, and return errors satisfying ErrOK (participle.Error, filename, offset in bounds, line/column consistent, unexpected token present in the stream, text = position + message, nil AST on lexing failure, partial AST on parse failure). Realistic grammars (JSON, expression, INI, stateful interpolation) are driven with seeded mutations and with nested (300+) and flat (20000+) inputs in child processes under a stack limit.",
         note="Long/deep inputs are executed on the real code only (TLC does not re-evaluate them). Error identity is not judged. ErrOK is computed by the harness from the public error API.",
         ref="4/C06"),
+    "C19": dict(
+        technique="TLA+ spec TagSyntax (documented tag grammar as recursive descent, three-valued class) evaluated by TLC on all token soups up to a bound and on every single-token edit of valid tags; real Build called on dynamic struct types carrying the tag text, and on a set of struct shapes, under recover + watchdog",
+        text="TLC enumerates every sequence of tag tokens up to the bound over the 18-symbol alphabet and every insertion/deletion/replacement of one token in seeded valid tags, and classifies each as MustBuild, MustError (unknown token type, unclosed group or lookahead, modifier/capture/negation applied to nothing, empty alternative) or Either; Build must never panic or hang, must return an error for MustError and a parser for MustBuild, in the whole-tag, parser:\"...\", two-field and struct-field forms. Exhaustive over soups within the bound.",
+        note="Left recursion (also must-error) is decided by C08. Struct shapes are a fixed list of 21 types. The tag lexer (text/scanner) is exercised only through the alphabet's concrete spellings.",
+        ref="4/C19, 3.9"),
+    "C08": dict(
+        technique="TLA+ spec Grammar (Nullable, LeftCalls, LeftRecursive) evaluated by TLC over the placement family F_lr; real Build verdict compared; accepted grammars parsed on all short inputs in a stack-limited child process",
+        text="For every grammar of F_lr (1-3 mutually referring productions and a union; the reference placed at the head, in later alternatives, after optional/starred/lookahead/nullable prefixes, inside groups, captures and lookahead groups, after consuming prefixes, after empty literals) TLC decides LeftRecursive; Build must return an error exactly for those. Every accepted grammar is then parsed on all inputs up to length 3 under a 64 MiB stack limit: a crash is the consequence clause failing.",
+        note="Production references go through one-member unions because dynamic struct types cannot refer to themselves directly; direct *T recursion is covered by the struct shapes of C19 and the example grammars of C06.",
+        ref="4/C08, 3.8"),
     "C16": dict(
         technique="TLA+ spec StatefulLexer (Expand, Symbols, RoundTripStable invariant) checked by TLC; marshalled documents compared with the specification's serialised form; MC_StatefulLexer expectations replayed against definitions rebuilt from both JSON routes",
         text="TLC checks that include expansion is idempotent and the symbol table stable when expanded rules are fed back, and prints the serialised form and the expected streams; the harness compares json.Marshal(def) and json.Marshal(def.Rules()) with that form (order, byte-exact names and patterns, action kinds and targets), and replays all inputs up to the bound on lexer.New(unmarshal(...)) for both routes, comparing streams and symbol tables with the original.",
